@@ -205,6 +205,39 @@ fn scoped_ok(owner: &str, how: &str) -> bool {
             || (how == "judge" && owner == "reader"))
 }
 
+fn rep_factor(p: &str) -> Option<(&str, usize)> {
+    let parts: Vec<&str> = p.split('*').collect();
+    match parts.as_slice() {
+        [t, k] => parse_nat(k).map(|k| (*t, k)),
+        _ => None,
+    }
+}
+
+/// Ops of magnitudes the list-based models cannot replay switch the case to `quiet` by rule
+/// (`autoQuiet` in Driver/Scale.lean is the same rule).
+pub fn auto_quiet(ws: &[&str]) -> bool {
+    let big_run = |w: &str| -> bool {
+        if let Some(rest) = w.strip_prefix('~') {
+            let parts: Vec<&str> = rest.split('x').collect();
+            if parts.len() == 2 {
+                return parse_nat(parts[1]).map(|n| n >= 8388608).unwrap_or(false);
+            }
+        }
+        false
+    };
+    let big_part = |w: &str| -> bool {
+        w.contains('+') && w.split('+').any(|p| matches!(rep_factor(p), Some((t, k)) if t.chars().count() > 2 && k >= 30000))
+    };
+    let head = match ws {
+        ["script", sc] => sc.split(',').any(|e| matches!(rep_factor(e), Some((t, k)) if t.starts_with('x') && k >= 30000)),
+        ["extendrun", _, k, _] => parse_nat(k).map(|k| k >= 20000).unwrap_or(false),
+        ["newrun", k, _] => parse_nat(k).map(|k| k >= 20000).unwrap_or(false),
+        ["rep", k, ..] => parse_nat(k).map(|k| k >= 20000).unwrap_or(false),
+        _ => false,
+    };
+    head || ws.iter().any(|w| big_run(w)) || ws.iter().any(|w| big_part(w))
+}
+
 fn split_ops(ws: &[&str]) -> Vec<Vec<String>> {
     let mut out = Vec::new();
     let mut cur: Vec<String> = Vec::new();
@@ -782,6 +815,37 @@ impl ScaleExec {
 impl Exec for ScaleExec {
     fn step(&mut self, w: &[&str]) -> StepOut {
         self.current = w.iter().map(|s| s.chars().take(80).collect()).collect();
+        if !self.quiet && auto_quiet(w) {
+            // the real code and the oracles still run; the model stops replaying here
+            self.quiet = true;
+            let mut so = self.step_inner(w);
+            so.obs = vec!["quiet".to_string()];
+            return so;
+        }
+        self.step_inner(w)
+    }
+
+    fn finish(&mut self) -> StepOut {
+        // survivors of caught panics go first: the wrapped executor's leak oracle (and main.rs's)
+        // compare the counters with the start of the case
+        let kept = std::mem::take(&mut self.kept);
+        drop(kept);
+        let so = self.inner.finish();
+        self.finalize(so)
+    }
+
+    fn panic_violation(&self, _w: &[&str]) -> Option<String> {
+        let cur: Vec<&str> = self.current.iter().map(|s| s.as_str()).collect();
+        self.inner.panic_violation(&cur)
+    }
+
+    fn flush_before(&self, w: &[&str]) -> bool {
+        self.inner.flush_before(w)
+    }
+}
+
+impl ScaleExec {
+    fn step_inner(&mut self, w: &[&str]) -> StepOut {
         match w {
             ["terse"] if !self.quiet => {
                 self.terse = true;
@@ -826,23 +890,6 @@ impl Exec for ScaleExec {
         }
     }
 
-    fn finish(&mut self) -> StepOut {
-        // survivors of caught panics go first: the wrapped executor's leak oracle (and main.rs's)
-        // compare the counters with the start of the case
-        let kept = std::mem::take(&mut self.kept);
-        drop(kept);
-        let so = self.inner.finish();
-        self.finalize(so)
-    }
-
-    fn panic_violation(&self, _w: &[&str]) -> Option<String> {
-        let cur: Vec<&str> = self.current.iter().map(|s| s.as_str()).collect();
-        self.inner.panic_violation(&cur)
-    }
-
-    fn flush_before(&self, w: &[&str]) -> bool {
-        self.inner.flush_before(w)
-    }
 }
 
 // ------------------------------------------------------------------ small helpers for the generators
